@@ -275,7 +275,8 @@ def bind_signature(cfg, what):
 
 def classify(diffs):
     """-> (known-finding signature or None, the first difference that is NOT explained by a known finding or None)"""
-    unexplained = [d for d in diffs if not (d[0] and d[0][-1] == "guard")]
+    # (a guard that differs is recorded finding F17 only if the generated guard is the source guard with params / operands DROPPED)
+    unexplained = [d for d in diffs if not (d[0] and d[0][-1] == "guard" and len(d) > 3 and d[3])]
     if unexplained:
         return None, unexplained[0]
     return (F17_TREE if diffs else None), None
@@ -289,6 +290,16 @@ def configs(rng, n, n_corpus):
         "idle": {"on": {"LOAD": "loading"}},
         "loading": {"invoke": {"src": "fetchUser", "id": "loading", "onDone": "ready", "onError": "idle"}},
         "ready": {}}, "on": {"done.invoke.loading": ".ready"}})]
+    # composite guards nested inside a composite of the SAME operator (fifth-round seeded change C17-C flattened them "for
+    # readability": and(and(a,b),c) stays equivalent, not(not(x)) becomes not(x)), operands spelled under params.guards
+    def same_op(op, inner):
+        return {"type": op, "params": {"guards": [{"type": op, "params": {"guards": inner}}] + ([] if op == "not" else ["gZ"])}}
+    out += [("nested-same-operator", {"id": "door", "initial": "closed", "states": {
+        "closed": {"on": {"PUSH": [{"target": "open", "guard": same_op("not", ["gA"])}, {"target": "jammed"}],
+                          "PULL": [{"target": "open", "guard": same_op("and", ["gA", "gB"])}, {"target": "jammed"}],
+                          "KICK": [{"target": "open", "guard": same_op("or", ["gA", "gB"])},
+                                   {"target": "jammed", "guard": {"type": "not", "params": {"guards": [same_op("not", ["gB"])]}}}]}},
+        "open": {"on": {"PUSH": "closed"}}, "jammed": {}}})]
     out += [("no-target", {"id": "pure", "initial": "only", "states": {"only": {"on": {
         "B": {"actions": "b"}, "A": {"actions": "a"}, "D": {"actions": "d"}, "C": {"actions": "c"}, "E": {"actions": "e"}}}}})]
     corpus = c18.corpus_configs(None)
